@@ -184,6 +184,22 @@ Proof.
   intros H. cbn [cstep]. rewrite (wait_acks_all s _ _ _ H). cbn. auto.
 Qed.
 
+(* the first kernel error is what WaitForPendingACKs returns: the ACKs before it are consumed, the failed
+   request leaves the list too, the later ones stay pending and their ACKs stay unread *)
+Theorem wait_first_error s : forall pre q post script mid rest errno,
+  acked pre script mid -> q <> 0 -> (0 < errno < 2^31)%Z -> answers q errno mid rest ->
+  wait_acks s script (pre ++ q :: post) =
+    ({| pending := post; clear_pid := clear_pid s; closed := closed s; nseq := nseq s |}, rest, Some (EErrno errno)).
+Proof.
+  induction pre as [|p pre IH]; intros q post script mid rest errno Ha Hq He Hans; inversion Ha; subst; cbn [app wait_acks].
+  - destruct (answers_delivers _ _ _ _ Hans) as (extra & Hd). rewrite (reply_delivers _ _ _ _ _ Hq Hd).
+    unfold check_ack. rewrite N.eqb_refl. rewrite parse_errno by lia.
+    replace (Z.eqb errno 0) with false by (symmetry; apply Z.eqb_neq; lia). reflexivity.
+  - match goal with Hx : answers p 0 script ?m |- _ => pose proof (ack_verdict p 0%Z script m ltac:(auto) ltac:(lia) Hx) as HV end.
+    destruct (reply p script) as [r rest']. destruct HV as [HV ->].
+    destruct r as [e|[[ty sq] d]]; [cbn in HV; discriminate|]. rewrite HV. eapply IH; eauto.
+Qed.
+
 (* ---- Close closes the socket at most once, and exactly once if it is ever called ---- *)
 Definition closes_socket (o : outcome4) : bool := let '(_, _, cl, _) := o in cl.
 Fixpoint count_closes (l : list outcome4) : nat := match l with [] => O | o :: r => (if closes_socket o then 1 else 0) + count_closes r end.
